@@ -169,6 +169,48 @@ def code_response(z, prof, mx, my, nxy, domain, levels):
     return [(2.0 * (conc[k] * e).mean(), 2.0 * (flx[k] * e).mean()) for k in range(len(levels))]
 
 
+def field_error(fv, z, prof, mx, my, nxy, domain, levels):
+    """the real solver's fields for the surface flux cos(kx x + ky y) against the exact solution, as FIELDS: the source is
+    decomposed into its discrete Fourier coefficients (two for an ordinary component; for the unpaired edge column/row of an
+    even mode count the two coefficients are NOT complex conjugates of each other, and the solver labels that column with
+    the negative wavenumber), each coefficient is propagated with the exact response of its own wavenumber pair, and the
+    real part of the sum is compared with the returned fields.  Returns (max error relative to the surface concentration
+    amplitude, growth)."""
+    from bldfm.solver import steady_state_transport_solver
+
+    nx, ny = nxy
+    x = np.arange(nx) * domain[0] / nx
+    y = np.arange(ny) * domain[1] / ny
+    X, Y = np.meshgrid(x, y)
+    q0 = np.cos(2 * np.pi * (mx * X / domain[0] + my * Y / domain[1]))
+    _, conc, flx = steady_state_transport_solver(q0, z, prof, domain, list(levels), modes=(nx, ny), halo=0.0, precision="double")
+    conc = np.asarray(conc).reshape(len(levels), ny, nx)
+    flx = np.asarray(flx).reshape(len(levels), ny, nx)
+    coef = np.fft.fft2(q0) / (nx * ny)
+    fx = np.fft.fftfreq(nx, d=1.0 / nx)
+    fy = np.fft.fftfreq(ny, d=1.0 / ny)
+    heights = [float(z[k]) for k in levels]
+    want_p = np.zeros((len(levels), ny, nx), dtype=complex)
+    want_q = np.zeros((len(levels), ny, nx), dtype=complex)
+    growth, memo = 0.0, {}
+    for jy, jx in np.argwhere(np.abs(coef) > 1e-12):
+        kx, ky = 2 * np.pi * fx[jx] / domain[0], 2 * np.pi * fy[jy] / domain[1]
+        key = (round(float(kx), 12), round(float(ky), 12))
+        if (-key[0], -key[1]) in memo:               # the response of the mirrored wavenumber pair is the complex conjugate
+            ex = {h: (np.conj(v[0]), np.conj(v[1])) for h, v in memo[(-key[0], -key[1])].items()}
+        else:
+            ex, g = exact_response(fv, float(z[0]), float(z[-1]), float(kx), float(ky), heights)
+            growth = max(growth, g)
+        memo[key] = ex
+        wave = np.exp(1j * (kx * X + ky * Y))
+        for k, h in enumerate(heights):
+            want_p[k] += coef[jy, jx] * ex[h][0] * wave
+            want_q[k] += coef[jy, jx] * ex[h][1] * wave
+    scale_p = max(float(np.abs(want_p[0].real).max()), 1e-300)
+    err = max(float(np.abs(conc - want_p.real).max()) / scale_p, float(np.abs(flx - want_q.real).max()))
+    return err, growth
+
+
 def grid_of(kind, z0, ztop, n):
     if kind == "uniform":
         return np.linspace(z0, ztop, n + 1)
@@ -190,9 +232,10 @@ def convergence(chk, t, rng):
         f, z0, ztop = profile_family(fam)
         for gk in grids:
             for n0 in n0s:
-                comps = [(1, 0), (0, 1), (1, 1), (2, -1), (3, 1)] if t == "quick" else [(1, 0), (0, 1), (1, 1), (2, -1), (3, 1), (-2, 2), (3, -2), (1, 2)]
+                # ordinary components and the unpaired edge column / row of the even mode count (kx = -nx/2, ky = -ny/2)
+                comps = [(1, 0), (0, 1), (1, 1), (2, -1), (3, 1), (-4, 1), (-4, -2)] if t == "quick" else [(1, 0), (0, 1), (1, 1), (2, -1), (3, 1), (-2, 2), (3, -2), (1, 2), (-4, 1), (-4, -2), (2, -3), (-4, -3)]
                 if n0 >= 96:
-                    comps = comps[1:4]
+                    comps = comps[1:4] + comps[5:6]
                 # variants of the family: the profiles as they are; the same column with other horizontal diffusivities solved
                 # right after it (same z, u, v, Kz: nothing of the earlier solve may survive in the process); a wind that
                 # turns with height (30 degrees of veering over the column)
@@ -223,14 +266,10 @@ def convergence(chk, t, rng):
                             skip = True                 # not resolved by the coarsest grid: outside the property
                             break
                         lv = [0, nn // 3, (2 * nn) // 3, nn] if (mx + my) % 2 else [0, nn // 4, nn // 2]     # with and without the top node among the outputs
-                        heights = [float(z[k]) for k in lv]
-                        ex, growth = exact_response(fv, float(z[0]), float(z[-1]), kx, ky, heights)
+                        e, growth = field_error(fv, z, prof, mx, my, nxy, domain, lv)
                         if growth > 18.0:
                             skip = True
                             break
-                        got = code_response(z, prof, mx, my, nxy, domain, lv)
-                        scale_p = abs(ex[heights[0]][0])
-                        e = max(max(abs(got[j][0] - ex[h][0]) / scale_p, abs(got[j][1] - ex[h][1])) for j, h in enumerate(heights))
                         errs.append(e)
                         rel_dz.append(float((dz / z[1:]).max()))
                     if skip:
